@@ -78,7 +78,9 @@ M3 fs.WriteFile: temp file replaced by os.Create(to) (writes in place)
       (57 oracle failures), 23 disagreements.
 M4 needsBuilding: the "every output exists" loop removed
    -> exit 1: C32_facts_ok fails (needsBuildingChecksEveryOutput); oracle: kill between RemoveAll and Rename in fallback mode
-      is trusted without the output (classes recovered-differs-from-clean, recovery-build-fails-persistently).
+      is trusted without the output (classes recovered-differs-from-clean, recovery-build-fails-persistently); re-run on the final
+      version: exit 1, replay `crash f n - s old:1 8 0 revert` (state o0=none/s0, next=skip final=stale).
 M5 harmless: StoreTargetMetadata's local `filename` renamed, two independent assignments in moveOutputs swapped
    -> exit 0, 31/31 obligations, no disagreement.
+(M1-M3, M5 were run on the first committed version of the check, 7429ec7; the later additions only add cases and theorems.)
 """
